@@ -17,6 +17,7 @@ type C20Case struct {
 	Zone   string
 	Ctx    string
 	Err    string
+	Via    string // "", "new", "exec"
 	Origin string // "curated", "generated", "scaling"
 }
 
@@ -26,7 +27,7 @@ func (c C20Case) scenario(f *Fault) *Scenario {
 		Paths: []string{c.Path}, Docs: []DocSpec{c.Doc},
 		Note: "C20 enumeration case (" + c.Origin + ")",
 	}
-	op := OpSpec{Kind: c.Kind, Path: 0, Doc: 0, Vars: -1, Silent: c.Silent, TZ: c.TZ, Zone: c.Zone, Ctx: c.Ctx, Fault: f}
+	op := OpSpec{Kind: c.Kind, Path: 0, Doc: 0, Vars: -1, Silent: c.Silent, TZ: c.TZ, Zone: c.Zone, Ctx: c.Ctx, Fault: f, Via: c.Via}
 	if c.Vars != nil {
 		sc.Vars = []DocSpec{*c.Vars}
 		op.Vars = 0
@@ -79,6 +80,7 @@ func CuratedC20Cases(thorough bool) []C20Case {
 						c := C20Case{
 							Path: p.Text, Doc: DocSpec{JSON: d.JSON, Number: rot%5 == 0}, Kind: kind, Silent: silent,
 							TZ: rot%3 != 0, Zone: c20Zones[rot%len(c20Zones)], Ctx: v.Ctx, Err: v.Err, Origin: "curated",
+							Via: []string{"", "", "exec", "new"}[(rot/7)%4],
 						}
 						vi := rot % len(poolVars)
 						if info.wild && !poolVarSafe[vi] {
